@@ -36,6 +36,8 @@ enum Body {
     RejectWithModifiersAfter,
     /// two default `then` elements
     TwoThens,
+    /// a default reject but no `<name>` at all (cannot come from a router; the reader has to refuse it, not guess)
+    NoName,
 }
 
 fn permutations<T: Clone>(items: &[T]) -> Vec<Vec<T>> {
@@ -103,7 +105,7 @@ fn statements(full: bool) -> Vec<Gen> {
         (vec![" junos:changed-seconds=\"1\"".into()], "foreign attribute"),
         (vec![format!(" xmlns:jcmd=\"{JCMD}\"")], "duplicate xmlns:jcmd"),
     ];
-    let bodies = [Body::Reject, Body::RejectFirst, Body::NameOnly, Body::TermAndReject, Body::Accept, Body::RejectWithComment, Body::InstalledShape, Body::RejectWithModifiersBefore, Body::RejectWithModifiersAfter, Body::TwoThens];
+    let bodies = [Body::Reject, Body::RejectFirst, Body::NameOnly, Body::TermAndReject, Body::Accept, Body::RejectWithComment, Body::InstalledShape, Body::RejectWithModifiersBefore, Body::RejectWithModifiersAfter, Body::TwoThens, Body::NoName];
     let names = if full { vec!["fltr-foo", "a&b<c \"q\""] } else { vec!["fltr-foo", "a&b<c \"q\""] };
     let mut out = Vec::new();
     for (comment, expr, cdesc) in &comments {
@@ -137,12 +139,13 @@ fn statements(full: bool) -> Vec<Gen> {
                             Body::RejectWithModifiersBefore => format!("<name>{n}</name><then><community><add/><community-name>blackhole</community-name></community><metric><metric>10</metric></metric><reject/></then>"),
                             Body::RejectWithModifiersAfter => format!("<name>{n}</name><then><reject/><local-preference><local-preference>50</local-preference></local-preference></then>"),
                             Body::TwoThens => format!("<name>{n}</name><then><reject/></then><then><accept/></then>"),
+                            Body::NoName => "<then><reject/></then>".to_string(),
                             Body::InstalledShape => format!("<name>{n}</name><term><name>inet</name><from><family>inet</family><route-filter><address>192.0.2.0/24</address><choice-ident>prefix-length-range</choice-ident><choice-value>/24-/32</choice-value></route-filter></from><then><accept/></then></term><term><name>inet6</name><from><family>inet6</family><route-filter><address>2001:db8::/32</address><choice-ident>prefix-length-range</choice-ident><choice-value>/32-/48</choice-value></route-filter></from><then><accept/></then></term><then><reject/></then>"),
                         };
                         let trivial = matches!(body, Body::Reject | Body::RejectFirst | Body::RejectWithComment);
                         let annotated = expr.is_some();
                         let selected = (annotated && *is_active && trivial).then(|| ((*name).to_string(), canon(expr.unwrap())));
-                        let may_abort = annotated && *is_active && matches!(body, Body::TermAndReject | Body::Accept | Body::InstalledShape | Body::RejectWithModifiersBefore | Body::RejectWithModifiersAfter | Body::TwoThens);
+                        let may_abort = annotated && *is_active && matches!(body, Body::TermAndReject | Body::Accept | Body::InstalledShape | Body::RejectWithModifiersBefore | Body::RejectWithModifiersAfter | Body::TwoThens | Body::NoName);
                         let orders = if full || attrs.len() <= 3 { permutations(&attrs) } else { vec![attrs.clone(), attrs.iter().rev().cloned().collect()] };
                         let orders: BTreeSet<Vec<String>> = orders.into_iter().collect();
                         for order in orders {
@@ -299,6 +302,21 @@ pub fn run(report: &mut Report) {
         }
     }
     evaluations += pairs + 1;
+    // a statement the reader cannot accept (no name), directly followed by / following a managed one: whatever
+    // the reader does about the first, the second must not be lost or altered
+    if let Some(managed) = gens.iter().find(|g| g.selected.is_some() && g.stmt.name == "fltr-foo") {
+        let mut m2 = managed.clone();
+        m2.stmt.name = "fltr-second".into();
+        m2.stmt.body = m2.stmt.body.replace("fltr-foo", "fltr-second");
+        if let Some(sel) = &mut m2.selected {
+            sel.0 = "fltr-second".into();
+        }
+        for g in gens.iter().filter(|g| g.desc.contains("body NoName") && g.may_abort).take(40) {
+            check(report, &[g, &m2], &mut distinct);
+            check(report, &[&m2, g], &mut distinct);
+            evaluations += 2;
+        }
+    }
     let placed = placement(report, &mut distinct);
     evaluations += placed;
     report.set("namespace_and_ancestor_placement_cases", placed);
